@@ -150,6 +150,35 @@ def origin_args(ctx, rule):
 
 
 
+def no_string_prefix(ctx, rule):
+    """no string-level prefix test on a rendered path anywhere in the ignore crates (shared with C03: component-exact ancestry)"""
+    facts = ctx.facts
+    # ---- R14.5 no string-prefix path comparison; set iteration only through order-independent combinators
+    STR_CMP = ("core::str::<impl str>::starts_with", "core::str::<impl str>::ends_with", "core::str::<impl str>::strip_prefix", "core::str::<impl str>::contains",
+               "core::str::<impl str>::find")
+    TO_STR = ("std::path::Path::to_string_lossy", "std::path::Path::to_str", "std::path::Path::display", "std::ffi::os_str::OsStr::to_string_lossy",
+              "std::ffi::os_str::OsStr::to_str", "std::ffi::OsStr::to_string_lossy", "std::ffi::OsStr::to_str")
+    n_fn = 0
+    for crate in ("ignore_files", "watchexec_filterer_ignore", "watchexec_filterer_globset"):
+        for fn in facts.crate_fns(crate):
+            if fn.error or not fn.blocks:
+                continue
+            n_fn += 1
+            for bi, t in fn.calls():
+                if t.callee.is_(*STR_CMP) and not fn.macro(t.mac):
+                    tainted = False
+                    for a in t.args[:2]:
+                        for o in origins(fn, a, VALUE_CALLS + ("alloc::borrow::Cow::into_owned", "alloc::string::ToString::to_string", "alloc::string::String::as_str",
+                                                              "core::ops::deref::Deref::deref")):
+                            if o.kind == "call" and fn.blocks[o.data].term.callee.is_(*TO_STR):
+                                tainted = True
+                    ctx.require(not tainted, rule, "string-prefix-on-path:" + fn.def_, "no string-level prefix test on a rendered path in %s" % fn.def_.split("::")[-1],
+                                fn.loc(t.line),
+                                fail="%s compares paths as strings (%s on a rendered path): a sibling whose name extends another's (test / tests) is treated as "
+                                     "being inside it" % (fn.def_, strip_generics(t.callee.def_).split("::")[-1]))
+    ctx.floor(rule, "functions scanned for string-prefix path tests", n_fn, 100)
+
+
 def run(ctx):
     ctx.level = "other"
     facts = ctx.facts
@@ -423,30 +452,7 @@ def run(ctx):
     except Skip:
         pass
 
-    # ---- R14.5 no string-prefix path comparison; set iteration only through order-independent combinators
-    STR_CMP = ("core::str::<impl str>::starts_with", "core::str::<impl str>::ends_with", "core::str::<impl str>::strip_prefix", "core::str::<impl str>::contains",
-               "core::str::<impl str>::find")
-    TO_STR = ("std::path::Path::to_string_lossy", "std::path::Path::to_str", "std::path::Path::display", "std::ffi::os_str::OsStr::to_string_lossy",
-              "std::ffi::os_str::OsStr::to_str", "std::ffi::OsStr::to_string_lossy", "std::ffi::OsStr::to_str")
-    n_fn = 0
-    for crate in ("ignore_files", "watchexec_filterer_ignore", "watchexec_filterer_globset"):
-        for fn in facts.crate_fns(crate):
-            if fn.error or not fn.blocks:
-                continue
-            n_fn += 1
-            for bi, t in fn.calls():
-                if t.callee.is_(*STR_CMP) and not fn.macro(t.mac):
-                    tainted = False
-                    for a in t.args[:2]:
-                        for o in origins(fn, a, VALUE_CALLS + ("alloc::borrow::Cow::into_owned", "alloc::string::ToString::to_string", "alloc::string::String::as_str",
-                                                              "core::ops::deref::Deref::deref")):
-                            if o.kind == "call" and fn.blocks[o.data].term.callee.is_(*TO_STR):
-                                tainted = True
-                    ctx.require(not tainted, "R14.5", "string-prefix-on-path:" + fn.def_, "no string-level prefix test on a rendered path in %s" % fn.def_.split("::")[-1],
-                                fn.loc(t.line),
-                                fail="%s compares paths as strings (%s on a rendered path): a sibling whose name extends another's (test / tests) is treated as "
-                                     "being inside it" % (fn.def_, strip_generics(t.callee.def_).split("::")[-1]))
-    ctx.floor("R14.5", "functions scanned for string-prefix path tests", n_fn, 100)
+    no_string_prefix(ctx, "R14.5")
     try:
         ms = ctx.anchor_fn("R14.5", D + "::DirTourist::must_skip")
         names = {strip_generics(t.callee.def_) for _, t in ms.calls() if not ms.macro(t.mac)}
